@@ -1017,7 +1017,10 @@ int json_c_set_serialization_double_format(const char *double_format, int global
 		}
 #endif
 		if (global_serialization_float_format)
+		{
 			free(global_serialization_float_format);
+			global_serialization_float_format = NULL;
+		}
 		if (double_format)
 		{
 			char *p = strdup(double_format);
